@@ -2,13 +2,17 @@
 # tools/validate_seed.sh <dir with patch.diff and demo.py|test_demo.py>
 # confirms in a scratch worktree: demo passes on the clean tree, fails with the patch, baseline tests still pass with the patch
 d="$(cd "$1" && pwd)"; wt="${SFV_SEED_WT:-/work/int/repo}"
-demo="$d/demo.py"; [ -f "$demo" ] || demo="$d/test_demo.py"
+# the demos are written to be run from inside the worktree (`python _seed/<n>/demo.py`; several derive the streamflow root
+# from their own location): copy the seed directory to the same relative place in the scratch worktree
+n="$(basename "$d")"
+stage() { mkdir -p "$wt/_seed/$n" && cp "$d"/*.py "$wt/_seed/$n/" 2>/dev/null; }
+demo="$wt/_seed/$n/demo.py"; [ -f "$d/demo.py" ] || demo="$wt/_seed/$n/test_demo.py"
 run_demo() { case "$demo" in *test_demo.py) (cd "$wt" && PYTHONPATH="$wt" timeout 600 /venv/bin/python -m pytest -q -p no:cacheprovider --timeout=300 "$demo" >/var/tmp/seed_demo.log 2>&1);; *) (cd "$wt" && PYTHONPATH="$wt" timeout 600 /venv/bin/python "$demo" >/var/tmp/seed_demo.log 2>&1);; esac; echo $?; }
 git -C "$wt" checkout -q -- . && git -C "$wt" clean -fdq && git -C "$wt" checkout -q --detach "$(git -C /repo rev-parse HEAD)"
-echo "demo on clean tree: exit $(run_demo)"
+stage; echo "demo on clean tree: exit $(run_demo)"
 git -C "$wt" apply "$d/patch.diff" || { echo "PATCH DOES NOT APPLY"; exit 3; }
 echo "files touched: $(git -C "$wt" diff --stat | tail -1)"
-echo "demo with patch:    exit $(run_demo)"; tail -3 /var/tmp/seed_demo.log | cut -c1-300
+stage; echo "demo with patch:    exit $(run_demo)"; tail -3 /var/tmp/seed_demo.log | cut -c1-300
 mkdir -p /var/tmp/seedhome && rm -rf /var/tmp/seedhome/.streamflow
 # test_cwl_loop shares one sqlite file per HOME: run it serially (it is flaky under xdist on a loaded machine, with or without a patch)
 (cd "$wt" && HOME=/var/tmp/seedhome PYTHONPATH="$wt" timeout 2400 /venv/bin/python -m pytest -q -p no:cacheprovider --timeout=900 --junitxml=/var/tmp/seed_junit.xml -n 6 $(grep -v test_cwl_loop /verif/tools/stable_ids.txt) >/var/tmp/seed_tests.log 2>&1)
